@@ -634,7 +634,15 @@ impl World for VtimeWorld {
                     _ => "vnow",
                 }
             };
-            let a = [rng.below(1 << 16), rng.below(1 << 16), rng.below(1 << 16), rng.next() >> 1];
+            let mut a = [rng.below(1 << 16), rng.below(1 << 16), rng.below(1 << 16), rng.next() >> 1];
+            if let Some(prev) = ops.last() {
+                let prev: &Op = prev;
+                if prev.k == k && matches!(k, "vnow" | "vnew") && rng.chance(1, 3) {
+                    // Same time source answer again, other voucher (or the same).
+                    a[0] = prev.a[0];
+                    a[1] = prev.a[1];
+                }
+            }
             ops.push(Op::new(k, a));
         }
         Plan { world: "vtime", mode: if c14 { "window".into() } else { "nfs".into() }, seed, index, knobs, ops }
